@@ -134,7 +134,7 @@ Definition is_error (o : obs) : bool := match o with ObsErr _ => true | _ => fal
 Definition classify (c : case) : verdict :=
   match c with
   | CRead kids data q asts unchanged o =>
-      let dom := forallb choice_free kids
+      let dom := forallb choice_free kids && forallb wf_schema kids
                  && shaped (SCont root_meta kids) (DCont data) in
       let corr := res_eqb (read_query kids data q) o in
       let spec :=
